@@ -606,8 +606,72 @@ def _feed(f, payload):
         pass
 
 
+class _ConnProxy:
+    """stands in for a store's sqlite3 connection: before its k-th `execute` (1-based) `hook()` runs once"""
+
+    def __init__(self, real, k, hook):
+        object.__setattr__(self, "_real", real)
+        object.__setattr__(self, "_k", k)
+        object.__setattr__(self, "_hook", hook)
+        object.__setattr__(self, "_n", 0)
+        object.__setattr__(self, "fired", False)
+
+    def execute(self, *a, **kw):
+        object.__setattr__(self, "_n", self._n + 1)
+        if self._n == self._k and not self.fired:
+            object.__setattr__(self, "fired", True)
+            self._hook()
+        return self._real.execute(*a, **kw)
+
+    def __getattr__(self, name):
+        return getattr(self._real, name)
+
+    def __setattr__(self, name, value):
+        setattr(self._real, name, value)
+
+
+def run_interleave(case):
+    """two stores on one file: the whole call `b` of store s1 runs right before the k-th SQL statement of the call
+    `a` of store s0 (another process's write falling between two statements of one call). Observed: both results and
+    the rows afterwards - they must be those of `a; b` or of `b; a`."""
+    d = tempfile.mkdtemp(prefix="c15_")
+    db_file = os.path.join(d, "state.db")
+    views = raw = None
+    try:
+        views = Views(db_file, case["views"])
+        raw = sqlite3.connect(db_file, isolation_level=None)
+        for st in case.get("init", []):
+            views.exec_step(st)
+        a_store = views.obj[case["a"]["view"]]
+        attr = [n for n, v in vars(a_store).items() if isinstance(v, sqlite3.Connection)]
+        if len(attr) != 1:
+            return {"skipped": "the store's connection attribute was not found"}
+        box = {}
+
+        def hook():
+            box["b"] = views.exec_step(case["b"])[0]
+        proxy = _ConnProxy(getattr(a_store, attr[0]), int(case["k"]), hook)
+        setattr(a_store, attr[0], proxy)
+        try:
+            res_a = views.exec_step(case["a"])[0]
+        finally:
+            setattr(a_store, attr[0], object.__getattribute__(proxy, "_real"))
+        fired = proxy.fired
+        if not fired:
+            box["b"] = views.exec_step(case["b"])[0]      # `a` has fewer statements: plain `a; b`
+        return {"res_a": res_a, "res_b": box["b"], "dump": dump_rows(raw), "fired": fired}
+    finally:
+        if raw is not None:
+            raw.close()
+        if views is not None:
+            views.close()
+        shutil.rmtree(d, ignore_errors=True)
+
+
 def run(case):
     k = case.get("kind", "history")
+    if k == "interleave":
+        return run_interleave(case)
     if k == "history":
         return run_history(case)
     if k == "crash":
